@@ -99,8 +99,55 @@ fn exec_timer(t0: u64, ops: &[(bool, u64)]) -> Sx {
     Sx::L(obs)
 }
 
+/// A ValueWriter that captures the string a timestamp formatter writes.
+struct StrCapture<'a>(&'a mut Option<String>);
+impl metrique_writer_core::ValueWriter for StrCapture<'_> {
+    fn string(self, value: &str) { *self.0 = Some(value.to_string()); }
+    fn metric<'a>(self, _d: impl IntoIterator<Item = metrique_writer_core::Observation>, _u: metrique_writer_core::Unit, _dims: impl IntoIterator<Item = (&'a str, &'a str)>, _f: metrique_writer_core::MetricFlags<'_>) {}
+    fn error(self, _e: metrique_writer_core::ValidationError) {}
+}
+
+fn wall(nanos: i128) -> std::time::SystemTime {
+    if nanos >= 0 { UNIX_EPOCH + Duration::new((nanos / 1_000_000_000) as u64, (nanos % 1_000_000_000) as u32) }
+    else { let n = -nanos; UNIX_EPOCH - Duration::new((n / 1_000_000_000) as u64, (n % 1_000_000_000) as u32) }
+}
+
+/// Timestamp (sampled at creation) or TimestampOnClose (sampled at close) over an injected wall clock, read through
+/// the three epoch formatters; seconds / milliseconds are reported as the bits of the f64 the printed text denotes.
+fn exec_timestamp(on_close: bool, w0: i128, w1: i128) -> Sx {
+    use metrique::timers::{EpochMicros, EpochMillis, EpochSeconds, Timestamp, TimestampOnClose, TimestampValue};
+    use metrique_writer_core::value::ValueFormatter;
+    let ts = ManuallyAdvancedTimeSource::at_time(wall(w0));
+    let source = TimeSource::custom(ts.clone());
+    let value: TimestampValue = if on_close {
+        let guard = metrique_timesource::set_time_source(source);
+        let t = TimestampOnClose::default();
+        drop(guard);
+        ts.update_time(wall(w1));
+        t.close()
+    } else {
+        let t = Timestamp::new_from_time_source(source);
+        ts.update_time(wall(w1));
+        t.close()
+    };
+    let mut s = None; <EpochMicros as ValueFormatter<TimestampValue>>::format_value(StrCapture(&mut s), &value);
+    let micros: u128 = s.unwrap().parse().unwrap();
+    let mut s = None; <EpochSeconds as ValueFormatter<TimestampValue>>::format_value(StrCapture(&mut s), &value);
+    let secs: f64 = s.unwrap().parse().unwrap();
+    let mut s = None; <EpochMillis as ValueFormatter<TimestampValue>>::format_value(StrCapture(&mut s), &value);
+    let millis: f64 = s.unwrap().parse().unwrap();
+    // the default Value impl must agree with the millisecond formatter
+    let mut s2 = None; metrique_writer_core::Value::write(&value, StrCapture(&mut s2));
+    let dflt: f64 = s2.unwrap().parse().unwrap();
+    Sx::L(vec![sx::n(micros), sx::n(secs.to_bits()), sx::n(if dflt.to_bits() == millis.to_bits() { millis.to_bits() } else { u64::MAX })])
+}
+
 pub fn exec(case: &Sx) -> (Sx, bool) {
     match case.tag() {
+        2 => {
+            let z = |x: &Sx| match x { Sx::A(neg, m) => if *neg { -(*m as i128) } else { *m as i128 }, _ => 0 };
+            (exec_timestamp(case.arg(0).num() != 0, z(case.arg(1)), z(case.arg(2))), true)
+        }
         0 => {
             let ops: Vec<Op> = case.arg(0).list().iter().map(dec_op).collect();
             let nontrivial = ops.iter().filter(|o| matches!(o, Op::Stop(_) | Op::Overwrite(_) | Op::Discard(_))).count() >= 1;
@@ -204,5 +251,16 @@ pub fn run(ctx: &Ctx) {
         out.count("timer_cases");
         emit(&mut out, sx::tag(1, vec![sx::n(t0), Sx::L(ops)]));
     }
-    out.finish("stopwatch: every well-scoped operation sequence up to the tier's depth (exhaustive, one clock step size) plus random longer ones; timer: random advance/stop sequences. Non-trivial = at least one guard completion (stop/drop/overwrite/discard) resp. one timer stop; distinct by hash of the case");
+    for _ in 0..(nrand / 2) {
+        let w = |rng: &mut Rng| -> i128 { match rng.below(8) {
+            0 => -(rng.below(5_000_000_000_000) as i128), 1 => 0, 2 => rng.below(1000) as i128,
+            3 => 1_700_000_000_000_000_000 + rng.below(1_000_000_000) as i128,
+            4 => (rng.below(4_000_000_000) as i128) * 1_000_000_000,
+            5 => (1i128 << 53) * 1_000_000_000 / 1000 + rng.below(999) as i128,
+            _ => rng.below(4_000_000_000_000_000_000) as i128 } };
+        let (w0, w1) = (w(&mut rng), w(&mut rng));
+        out.count("timestamp_cases");
+        emit(&mut out, sx::tag(2, vec![sx::boolean(rng.chance(1, 2)), sx::z(w0), sx::z(w1)]));
+    }
+    out.finish("stopwatch: every well-scoped operation sequence up to the tier's depth (exhaustive, one clock step size) plus random longer ones; timer: random advance/stop sequences; timestamps: random wall clocks (before the epoch, sub-microsecond, > 2^53 ns) for Timestamp and TimestampOnClose through the three epoch formatters. Non-trivial = at least one guard completion (stop/drop/overwrite/discard) resp. one timer stop; distinct by hash of the case");
 }
